@@ -81,10 +81,14 @@ func replay(path string) int {
 	useRace := cfg.race && (meta.Oracle == "race" || !cfg.plain)
 	sc := prepare(cfg.checkptr, useRace, !useRace)
 	defer cleanupAll()
-	ev := &evaluator{bin: sc.sim, env: []string{"GOMAXPROCS=2"}, memKB: cfg.memKB, dir: sc.dir, prop: plan.Property, timeout: cfg.runTimeout}
+	gmp := "GOMAXPROCS=2"
+	if cfg.gomaxprocs > 0 {
+		gmp = fmt.Sprintf("GOMAXPROCS=%d", cfg.gomaxprocs)
+	}
+	ev := &evaluator{bin: sc.sim, env: []string{gmp}, memKB: cfg.memKB, dir: sc.dir, prop: plan.Property, timeout: cfg.runTimeout}
 	if useRace {
 		ev.bin, ev.memKB, ev.race = sc.simRace, 0, true
-		ev.env = []string{"GOMAXPROCS=2", "GORACE=halt_on_error=1 exitcode=66 atexit_sleep_ms=0 history_size=2", "GOMEMLIMIT=3GiB"}
+		ev.env = []string{gmp, "GORACE=halt_on_error=1 exitcode=66 atexit_sleep_ms=0 history_size=2", "GOMEMLIMIT=3GiB"}
 	}
 	expect := plan.Expect
 	plan.Expect, plan.Rendered = nil, nil
